@@ -11,6 +11,8 @@ duration of the call so that exactly the call dt(0) returns the injected day (ev
 replays do not depend on the clock.
 """
 import datetime, logging
+import numpy as np
+import pandas as pd
 from collections import Counter
 from .. import proto
 from ..proto import enc, hexs, unhex
@@ -52,9 +54,41 @@ SPELLED = {'2000-01-01': D(2000, 1, 1), '20000101': D(2000, 1, 1), 20000101: D(2
            '2024-06-15': TODAY, '14/06/2024': TODAY - datetime.timedelta(days=1), 20240614: TODAY - datetime.timedelta(days=1),
            '2024-06-15 09:00': TODAY + datetime.timedelta(hours=9), '1 Jan 2000': D(2000, 1, 1)}
 EXPIRIES = EXPIRIES + list(SPELLED)
+# the missing date (review v2 W4): what a None expiry becomes after a trip through pandas.  It is no "expiry date in the past": the row is
+# recomputed, as with None (fix 92e6220; before, dt(NaT) >= today being False, the old value was kept for ever).
+# Wire (expiry slot only): NAT = pd.NaT, NAT64 = np.datetime64('NaT'), the string 'NaT' is S:4e6154; the driver reads all three as the
+# model's cell for the missing date, Cell.str "NaT".
+NATS = [pd.NaT, np.datetime64('NaT'), 'NaT']
+EXPIRIES = EXPIRIES + NATS
+
+
+def is_nat(v):
+    return v is pd.NaT or (isinstance(v, np.datetime64) and bool(np.isnat(v))) or (isinstance(v, str) and v == 'NaT')
+
+
+def ecell(v):
+    return 'NAT' if v is pd.NaT else 'NAT64' if (isinstance(v, np.datetime64) and np.isnat(v)) else cell(v)
+
+
+def enc_expiry(v):
+    if isinstance(v, list):
+        return '(D' + ''.join(' (%s (L%s))' % (hexs(k), ''.join(' ' + ecell(x) for x in vs)) for k, vs in v) + ')'
+    return ecell(v)
+
+
+def dec_expiry(sx):
+    def d(x):
+        if isinstance(x, str):
+            return pd.NaT if x == 'NAT' else np.datetime64('NaT') if x == 'NAT64' else proto.dec_cell(x)
+        return [d(y) for y in x[1:]]
+    if isinstance(sx, list) and sx and sx[0] == 'D':
+        t = {unhex(kv[0]): d(kv[1]) for kv in sx[1:]}
+        return dictable(t) if t else dictable()
+    return d(sx)
 KUNIV = [1, 2, 3, 4, 'x', 'y', None, 2.0, 5.0, D(2020, 1, 1)]
 JUNIV = ['u', 'v', 1]
 VALS = [0, 1, 2, 7, 'p', 'q', None, 0.5, 2.5]
+ARG_NAMES = ['self', 'self', 'function', 'on', 'key', 'col', 'columns']
 
 
 def ckey(v):
@@ -140,6 +174,10 @@ def gen_case(rng, full=False):
         return gen_inner_two_keys(rng)
     on = ['k'] if rng.random() < 0.6 else ['k', 'j']
     params = ['a', 'b', 'c', 'd'][:rng.choice([1, 2, 2, 3, 4])]
+    odd_name = rng.random() < 0.12
+    if odd_name:
+        # a parameter of f called like a parameter of the machinery (review v2 W3; C16 has ARG_KEYS): bound by keyword all the way down
+        params[rng.randrange(len(params))] = rng.choice(ARG_NAMES)
     base = rand_keys(rng, on, None)
     inputs, kinds = [], []
     all_scalar = rng.random() < 0.08
@@ -196,10 +234,14 @@ def gen_case(rng, full=False):
         tag += '+expiry-scalar'
     if expiry is not None and (expiry in SPELLED if not isinstance(expiry, list) else any(x in SPELLED for c, xs in expiry if c not in on for x in xs if isinstance(x, (str, int)))):
         tag += '+expiry-spelled'
+    if expiry is not None and (is_nat(expiry) if not isinstance(expiry, list) else any(is_nat(x) for c, xs in expiry if c not in on for x in xs)):
+        tag += '+expiry-nat'
     if any(isinstance(v, list) and not any(c in on for c, _ in v) for _, v in inputs):
         tag += '+keyless-table'             # a table input without any key column: cross join
     if defaults:
         tag += '+defaults'
+    if odd_name:
+        tag += '+param-named-' + [q for q in params if q in ARG_NAMES][0]
     if renames:
         tag += '+renames'
     if_none = has_table and rng.random() < 0.15
@@ -221,7 +263,7 @@ def gen_case(rng, full=False):
         (' (D%s) %s' % (''.join(' (%s %s)' % (hexs(k), cell(v)) for k, v in renames), cell(bool(if_none)))) if (renames or if_none) else '',
         ''.join(' (%s %s)' % (hexs(k), cell(v)) for k, v in defaults),
         ''.join(' (%s %s)' % (hexs(k), enc_input(v)) for k, v in inputs),
-        enc_input(expiry), proto.dt2us(TODAY))
+        enc_expiry(expiry), proto.dt2us(TODAY))
     return tag, line
 
 
@@ -263,7 +305,7 @@ def call_impl(sx):
         sx = sx[:4] + sx[6:]
     defaults = {unhex(kv[0]): proto.dec(kv[1]) for kv in sx[4][1:]}
     inputs = {unhex(kv[0]): dec_input(kv[1]) for kv in sx[5][1:]}
-    expiry = dec_input(sx[6])
+    expiry = dec_expiry(sx[6])
     today = proto.dec_cell(sx[7])
     log = []
     if sx[1] == 'calld':
@@ -311,6 +353,11 @@ def compare(case, i, line, ir, mr):
         return ('divergence', 'model does not cover this call (impl: %s)' % ir[:100])
     if proto.same_reply(ir, mr):
         return None
+    if _ragged(proto.parse(line)):
+        return ('divergence', 'a table whose columns differ in length (only the shrinker arrives here): implementation %s, model %s' % (ir[:80], mr[:80]))
+    if len(proto.parse(line)[2]) == 1:
+        # f() without a parameter: outside the quantifier (1..4 inputs) - only the shrinker arrives here
+        return ('divergence', 'a call without any input: implementation %s, model %s' % (ir[:80], mr[:80]))
     if ir.startswith('err') and mr.startswith('ok'):
         return 'the call raised (%s) where the statement prescribes a result (model: %s)' % (ir, mr[:150])
     if not (ir.startswith('ok') and mr.startswith('ok')):
@@ -338,6 +385,14 @@ def compare(case, i, line, ir, mr):
     if la != lb:
         return 'calls of f differ: %d calls, model %d; extra %s, missing %s' % (sum(la.values()), sum(lb.values()), list(la - lb)[:4], list(lb - la)[:4])
     return None     # same rows and same calls; only an order among equal keys differs (python set order, see ASSUMPTIONS)
+
+
+def _ragged(sx):
+    if isinstance(sx, list):
+        if sx and sx[0] == 'D' and all(isinstance(kv, list) and len(kv) == 2 and isinstance(kv[1], list) and kv[1][:1] == ['L'] for kv in sx[1:]):
+            return len(set(len(kv[1]) for kv in sx[1:])) > 1
+        return any(_ragged(y) for y in sx)
+    return False
 
 
 def _keys_unique(tsx, line):
@@ -462,6 +517,8 @@ def laws(rng, tier, ctx):
                     vals.append(inputs[p])
             old, ok_data = lookup(inputs['data'], on, k) if 'data' in inputs else (None, False)
             ex = lookup(expiry, on, k)[0] if isinstance(expiry, dictable) else expiry
+            if is_nat(ex):
+                ex = None                                                    # the missing date is no expiry date
             if isinstance(ex, (str, int)) and not isinstance(ex, bool):
                 ex = SPELLED[ex]                                             # a date string / yyyymmdd number
             if ex is not None and not isinstance(ex, datetime.datetime):
